@@ -78,3 +78,25 @@ Theorem C20_harness_run_isolated : forall sb views acts r e,
   ev_owner e = r \/ ev_owner e = 0.
 Proof. exact harness_run_isolated. Qed.
 Print Assumptions C20_harness_run_isolated.
+
+(** two variants of the code that would break the frame, as witnesses that the model tells them
+    apart: (a) an owner cleaned up through the arena that is *current* on the thread instead of
+    its own deletes the other request's item at the colliding key (an item under a nested
+    owner); as coded it survives *)
+Theorem C20_ambient_arena_drop_breaks_frame :
+  let c := run_sched true nested_sched (init_world nested_progs) in
+  store_get (2, (0, 0)) (w_store (c_w c)) = Some 22%Z /\
+  store_get (2, (0, 0)) (w_store (c_w (drop_req_ambient_arena 1 c))) = None /\
+  store_get (2, (0, 0)) (w_store (c_w (drop_req true 1 c))) = Some 22%Z.
+Proof. exact ambient_arena_drop_breaks_frame. Qed.
+Print Assumptions C20_ambient_arena_drop_breaks_frame.
+
+(** (b) a Sandboxed task holding its arena weakly: a plain spawned task that outlives its
+    request's owner reads the other request's item (22) through its own handle; as coded it
+    reads nothing (-1) *)
+Theorem C20_weak_sandbox_leaks :
+  let c := run_sched true late_sched (init_world late_progs) in
+  q_log (get_req 1 (c_w (poll_task_weak 1 1 c))) = [(9, 8, 2, (-1)%Z, (-1)%Z, 22%Z)] /\
+  q_log (get_req 1 (c_w (poll_task true 1 1 c))) = [(9, 8, 2, (-1)%Z, (-1)%Z, (-1)%Z)].
+Proof. exact weak_sandbox_leaks. Qed.
+Print Assumptions C20_weak_sandbox_leaks.
